@@ -711,6 +711,14 @@ async def check_faults(case, rec):
         except ACCEPTED:
             rec.label("outcome:raises")
             return
+        except LookupError as err:
+            # a flipped byte in the payload of a GNU long-link / pax entry renames a hard link's target: the
+            # reader fails with tarfile's own KeyError("linkname ... not found") - the copy fails, which is all
+            # the statement asks for an undetectable payload corruption
+            if alt == "reference":
+                rec.label(f"outcome:raises:{type(err).__name__}")
+                return
+            raise
         got = fs.snapshot(out_root)
         if got == expected:
             rec.label("outcome:exact")
